@@ -9,7 +9,7 @@ use std::rc::Rc;
 use std::time::Duration;
 
 use flipdot::Sign;
-use flipdot_core::{Address, Data, Message, Offset, Page, SignBus, SignType, State};
+use flipdot_core::{Address, Data, Frame, Message, MsgType, Offset, Page, SignBus, SignType, State};
 use flipdot_serial::SerialSignBus;
 use flipdot_testing::{Odk, OdkError, VirtualSign, VirtualSignBus};
 use serde_json::{json, Value};
@@ -372,6 +372,16 @@ pub fn msg_alphabet() -> Alphabet {
     a.name = "R2+short-chunks".into();
     for (off, d) in [(0u16, vec![]), (16, vec![]), (0, vec![0x01u8]), (16, vec![0xFE]), (32, vec![0x33u8; 254]), (32, vec![0x44u8; 255])] {
         a.msgs.push(Message::SendData(Offset(off), Data::try_new(d).unwrap()));
+        a.cfg_only.push(false);
+    }
+    // Traffic that is not understood but looks like something that is: frames whose type and first data byte are those
+    // of a one-byte message (goodbye, hello, start-reset, receive-pixels, pixels-complete) but whose length is wrong, a
+    // chunk count with data, an empty type-2 frame, an unassigned type. By the table these are unknown; both paths
+    // must forward them unchanged and the sign must ignore them. (Added after seed C17-w5-2: a conversion that folds
+    // the longer-data arm into the one-byte arm turns them into resets on the wire only.)
+    let own = Address(crate::signsys::OWN);
+    for (t, d) in [(2u8, vec![0x55u8, 0x55]), (2, vec![0xFF, 0x00]), (3, vec![0xA6, 0x00]), (3, vec![0xA2, 0x00]), (6, vec![0x00, 0x00]), (1, vec![0x00]), (2, vec![]), (7, vec![0x01])] {
+        a.msgs.push(Message::Unknown(Frame::new(own, MsgType(t), Data::try_new(d).unwrap())));
         a.cfg_only.push(false);
     }
     // Deliberately NOT in the alphabet: Message::Unknown wrapping a frame that the protocol table recognises (e.g. type 0
